@@ -89,6 +89,8 @@ func planStmts(ctx context.Context, db *eng.DB, desired *schema.Realm) ([]string
 }
 
 func checkPerm(c PCase) (int, error) {
+	model.SettleShortFKs(&c.A, &c.B)
+	model.SettleShortFKs(&c.B, &c.A)
 	ctx := context.Background()
 	ref, err := eng.New(ctx)
 	if err != nil {
@@ -200,6 +202,8 @@ func checkPerm(c PCase) (int, error) {
 
 // checkProcesses: fresh processes of the real CLI give byte-identical `schema inspect`, `schema diff` and `migrate hash` output.
 func checkProcesses(c PCase) error {
+	model.SettleShortFKs(&c.A, &c.B)
+	model.SettleShortFKs(&c.B, &c.A)
 	sb, err := cli.NewSandbox()
 	if err != nil {
 		return fmt.Errorf("harness: %v", err)
